@@ -61,8 +61,7 @@ fn run_logger(tid: u64, ops: &[Op], pb: &ProgressBar, mp: &Option<MultiProgress>
                     if nap > 0 {
                         sched::sleep(nap);
                     }
-                    let _ = indicatif::TermLike::write_line(&t2, &l2);
-                    let _ = indicatif::TermLike::flush(&t2);
+                    t2.external_line(&l2);
                     sched::yield_now();
                     if nap > 0 {
                         sched::sleep(nap / 2);
@@ -94,6 +93,9 @@ pub fn exec_sched(sc: &Scenario, pid: &'static str) -> Report {
         let mut r = Report::default();
         sched::name_current_thread("user-0");
         let term = SimTerm::new(40, 200);
+        if sc.c("buffered") == 1 {
+            term.lock().buffered = true;
+        }
         let hz = sc.c("hz");
         let target = if hz > 0 {
             ProgressDrawTarget::term_like_with_hz(Box::new(term.clone()), hz as u8)
@@ -243,6 +245,7 @@ pub fn gen_sched(rng: &mut Rng, tier: Tier, pid: &'static str) -> Scenario {
     sc.set("multi", multi as u64);
     sc.set("hz", *rng.pick(&[0, 0, 20, 255]));
     sc.set("ticker_ms", *rng.pick(&[0, 0, 1, 10, 100]));
+    sc.set("buffered", rng.chance(1, 3) as u64);
     let nthreads = rng.range(2, if tier == Tier::Quick { 3 } else { 4 }) as usize;
     gen_sched_cfg(&mut sc, rng, 60 * nthreads as u64);
     sc.set("spurious_pm", *rng.pick(&[0, 0, 30]));
